@@ -455,6 +455,7 @@ struct SetDriver : DriverBase<SetDriver<Set, K, N, MCmp, Which, Transparent>> {
                     ++ctx.faultsFired;
                     ++ctx.boundaryEvents;
                     SIM_COUNT("F1.insert_refused_at_capacity");
+                    this->answerProp = "C09";
                 }
             }
             if (full && present) {
@@ -689,11 +690,23 @@ struct SetDriver : DriverBase<SetDriver<Set, K, N, MCmp, Which, Transparent>> {
             return;
         }
         if (op == "move_assign") {
-            if (obj[b] == nullptr || moved[b] || a == b) {
+            if (obj[b] == nullptr || moved[b]) {
                 skip();
                 return;
             }
             ctx.log.kv("b", b);
+            if (a == b) {
+                // F6: self-move-assignment through an alias: unspecified value, treated as moved-from afterwards (must
+                // stay valid, keep its elements' lifetimes balanced, accept assignment / clear / destruction)
+                SIM_COUNT("F6.self_move_assign");
+                Set& alias = *obj[b];
+                bool ok    = call(a, false, false, [&] { v = static_cast<Set&&>(alias); });
+                if (ok) {
+                    moved[a] = true;
+                    ++ctx.boundaryEvents;
+                }
+                return;
+            }
             bool ok = call(a, false, false, [&] { v = static_cast<Set&&>(*obj[b]); });
             if (ok) {
                 model[a] = model[b];
